@@ -385,10 +385,7 @@ def run(chk: Check) -> None:
         chk.case(("pfd", kind, size, mcl, declared), True)
         chk.count("parse_form_data:" + res)
         if res == "ok" and len(body) > mcl and len(form) + len(files) > 0:
-            # urlencoded with max_form_memory_size=None reads with stream.read(): LimitedStream(is_max) stops silently at the
-            # maximum (the C09 finding max-unbounded-read-truncates); every other path must raise
-            chk.fail("terminated-urlencoded-read-all-truncates" if kind == "urlencoded" and raw.consumed <= mcl + 1
-                     else "parse-form-data-max-content-length-ignored",
+            chk.fail("parse-form-data-max-content-length-ignored",
                      f"parse_form_data(max_content_length={mcl}) parsed a {len(body)}-byte {kind} body ({declared} length)",
                      {"kind": kind, "body_len": len(body), "max_content_length": mcl, "declared": declared})
         if raw.consumed > mcl + 1 and len(body) > mcl:
